@@ -527,6 +527,27 @@ def mutate(eng, st, recv, meth, pos, kw, node):
         if ek != recv.elem:
             seq = box(o, KList(recv.elem))
         return [(st, ListV(recv.elem, z3.Concat(recv.t, seq)), NONE)]
+    if isinstance(recv, (ListV, TupleV)) and meth == "insert" and len(pos) == 2 and isinstance(pos[0], IntV):
+        iv = _simp(pos[0].t)
+        v = pos[1]
+        if isinstance(recv, TupleV):
+            if not recv.is_list:
+                return [(st, recv, RaiseV("AttributeError", None, "tuple.insert"))]
+            if z3.is_int_value(iv):
+                i = iv.as_long()
+                items = list(recv.items)
+                items.insert(i, v)
+                return [(st, TupleV(items, True), NONE)]
+            ek, seq = _seq_of(eng, recv)
+            recv = ListV(ek, seq)
+        if not fits(v, recv.elem):
+            raise Unsupported(f"insert of {v.kind!r} into list of {recv.elem!r}")
+        n = z3.Length(recv.t)
+        i = z3.If(pos[0].t < 0, z3.If(pos[0].t + n < 0, 0, pos[0].t + n), z3.If(pos[0].t > n, n, pos[0].t))
+        unit = z3.Unit(box(v, recv.elem))
+        if z3.is_int_value(iv) and iv.as_long() == 0:
+            return [(st, ListV(recv.elem, z3.Concat(unit, recv.t)), NONE)]
+        return [(st, ListV(recv.elem, z3.Concat(z3.SubSeq(recv.t, 0, i), unit, z3.SubSeq(recv.t, i, n - i))), NONE)]
     if isinstance(recv, SetV) and meth == "add":
         return [(st, SetV(recv.elem, z3.Store(recv.t, box(pos[0], recv.elem), True)), NONE)]
     if isinstance(recv, ObjV) and recv.cls == "Writer" and meth == "write" and "buf" in recv.fields:
@@ -887,7 +908,20 @@ def ghost_yield(eng, st, v):
 
 
 def ghost_yield_from(eng, st, v):
-    raise Unsupported("yield from")
+    from .dom_model import ManyV, SegGenV
+
+    s = st.fork()
+    y = list(s.ghost["yield"])
+    if isinstance(v, SegGenV):
+        y.extend(ManyV(seg) if how == "many" else seg for how, seg in v.segments)
+    elif isinstance(v, TupleV):  # list literal / concrete generator
+        y.extend(v.items)
+    elif isinstance(v, ListV):
+        y.append(ManyV(v))
+    else:
+        raise Unsupported(f"yield from {type(v).__name__}")
+    s.ghost["yield"] = y
+    return s
 
 
 # ------------------------------------------------------------------------------ comprehensions
